@@ -18,8 +18,118 @@ package implementation
 //@   ensures[to-the-depositor] err == nil ==> descendants[0].ToAddress == sendBlock.Address && descendants[0].Address == types.StakeContract
 //@   ensures[znn] err == nil ==> descendants[0].TokenStandard == types.ZnnTokenStandard && descendants[0].BlockType == nom.BlockTypeContractSend
 //@   ensures[nothing-on-error] err != nil ==> len(descendants) == 0 && stg(context).stakeAmt == old(stg(context).stakeAmt) && stg(context).stakeHas == old(stg(context).stakeHas)
-//@   ensures-local[entry-of-sender] err == nil ==> old(stg(context).stakeHas[deref(id)][sendBlock.Address])
-//@   ensures-local[exact-amount] err == nil ==> val(descendants[0].Amount) == old(stg(context).stakeAmt[deref(id)][sendBlock.Address])
-//@   ensures-local[not-before-expiry] err == nil ==> old(stg(context).stakeExp[deref(id)][sendBlock.Address]) <= context.now
-//@   ensures-local[never-twice] err == nil ==> stg(context).stakeAmt == store(old(stg(context).stakeAmt), deref(id), store(old(stg(context).stakeAmt[deref(id)]), sendBlock.Address, 0))
+//@   ensures-local[entry-of-sender] err == nil ==> old(stg(context).stakeHas)[deref(id)][sendBlock.Address]
+//@   ensures-local[exact-amount] err == nil ==> val(descendants[0].Amount) == old(stg(context).stakeAmt)[deref(id)][sendBlock.Address]
+//@   ensures-local[not-before-expiry] err == nil ==> old(stg(context).stakeExp)[deref(id)][sendBlock.Address] <= context.now
+//@   ensures-local[never-twice] err == nil ==> stg(context).stakeAmt == store(old(stg(context).stakeAmt), deref(id), store(old(stg(context).stakeAmt)[deref(id)], sendBlock.Address, 0))
 //@   modifies sendBlock.Data, MF:common/db.DB.stakeHas, MF:common/db.DB.stakeAmt, MF:common/db.DB.stakeExp
+
+// Stake: records an entry under (hash of the send block, sender) holding exactly the received amount; pays nothing.
+//@ func StakeMethod.ReceiveBlock(p, context, sendBlock) -> (descendants, err)
+//@   requires p != nil && sendBlock != nil && sendBlock.Amount != nil
+//@   ensures[no-payment] len(descendants) == 0
+//@   ensures[entry-holds-received-amount] err == nil ==> stg(context).stakeAmt == store(old(stg(context).stakeAmt), sendBlock.Hash, store(old(stg(context).stakeAmt)[sendBlock.Hash], sendBlock.Address, val(sendBlock.Amount)))
+//@   ensures[entry-owned-by-sender] err == nil ==> stg(context).stakeHas[sendBlock.Hash][sendBlock.Address]
+//@   ensures[znn-only] err == nil ==> sendBlock.TokenStandard == types.ZnnTokenStandard
+//@   ensures[nothing-on-error] err != nil ==> stg(context).stakeAmt == old(stg(context).stakeAmt) && stg(context).stakeHas == old(stg(context).stakeHas)
+//@   modifies sendBlock.Data, MF:common/db.DB.stakeHas, MF:common/db.DB.stakeAmt, MF:common/db.DB.stakeExp
+
+// ---- plasma ------------------------------------------------------------------------------------------------------------
+// Fuse: records an entry under (sender, hash of the send block) holding exactly the received QSR and adds the same amount
+// to the beneficiary's total; pays nothing.
+//@ func FuseMethod.ReceiveBlock(p, context, sendBlock) -> (descendants, err)
+//@   requires p != nil && sendBlock != nil && sendBlock.Amount != nil
+//@   ensures[no-payment] len(descendants) == 0
+//@   ensures[entry-holds-received-amount] err == nil ==> stg(context).fusionAmt == store(old(stg(context).fusionAmt), sendBlock.Address, store(old(stg(context).fusionAmt)[sendBlock.Address], sendBlock.Hash, val(sendBlock.Amount)))
+//@   ensures[qsr-only] err == nil ==> sendBlock.TokenStandard == types.QsrTokenStandard
+//@   ensures-local[total-follows-entry] err == nil ==> stg(context).fusedAmt == store(old(stg(context).fusedAmt), deref(beneficiary), old(stg(context).fusedAmt)[deref(beneficiary)] + val(sendBlock.Amount)) && stg(context).fusionBen[sendBlock.Address][sendBlock.Hash] == deref(beneficiary)
+//@   ensures-local[expires-later] err == nil ==> stg(context).fusionExp[sendBlock.Address][sendBlock.Hash] == context.height + constants.FuseExpiration
+//@   ensures[nothing-on-error] err != nil ==> stg(context).fusionAmt == old(stg(context).fusionAmt) && stg(context).fusedAmt == old(stg(context).fusedAmt)
+//@   modifies sendBlock.Data, MF:common/db.DB.fusionHas, MF:common/db.DB.fusionAmt, MF:common/db.DB.fusionExp, MF:common/db.DB.fusionBen, MF:common/db.DB.fusedAmt
+
+// CancelFuse: pays exactly the recorded amount of the entry stored under (sender, id) back to the sender, only once the
+// frontier height has reached the entry's expiration height; removes the entry and subtracts its amount from the total of
+// the beneficiary recorded in the entry, in the same call.
+//@ func CancelFuseMethod.ReceiveBlock(p, context, sendBlock) -> (descendants, err)
+//@   requires p != nil && sendBlock != nil && sendBlock.Amount != nil
+//@   ensures[one-payment] err == nil ==> len(descendants) == 1 && descendants[0] != nil && descendants[0].Amount != nil
+//@   ensures[to-the-depositor] err == nil ==> descendants[0].ToAddress == sendBlock.Address && descendants[0].Address == types.PlasmaContract
+//@   ensures[qsr] err == nil ==> descendants[0].TokenStandard == types.QsrTokenStandard && descendants[0].BlockType == nom.BlockTypeContractSend
+//@   ensures[nothing-on-error] err != nil ==> len(descendants) == 0 && stg(context).fusionAmt == old(stg(context).fusionAmt) && stg(context).fusionHas == old(stg(context).fusionHas) && stg(context).fusedAmt == old(stg(context).fusedAmt)
+//@   ensures-local[entry-of-sender] err == nil ==> old(stg(context).fusionHas)[sendBlock.Address][deref(id)]
+//@   ensures-local[exact-amount] err == nil ==> val(descendants[0].Amount) == old(stg(context).fusionAmt)[sendBlock.Address][deref(id)]
+//@   ensures-local[not-before-expiry] err == nil ==> old(stg(context).fusionExp)[sendBlock.Address][deref(id)] <= context.height
+//@   ensures-local[never-twice] err == nil ==> !stg(context).fusionHas[sendBlock.Address][deref(id)] && stg(context).fusionAmt == store(old(stg(context).fusionAmt), sendBlock.Address, store(old(stg(context).fusionAmt)[sendBlock.Address], deref(id), 0))
+//@   ensures-local[total-follows-entry] err == nil ==> stg(context).fusedAmt == store(old(stg(context).fusedAmt), old(stg(context).fusionBen)[sendBlock.Address][deref(id)], old(stg(context).fusedAmt)[old(stg(context).fusionBen)[sendBlock.Address][deref(id)]] - old(stg(context).fusionAmt)[sendBlock.Address][deref(id)])
+//@   modifies sendBlock.Data, MF:common/db.DB.fusionHas, MF:common/db.DB.fusionAmt, MF:common/db.DB.fusedAmt
+
+// ---- htlc --------------------------------------------------------------------------------------------------------------
+// Storage invariant of the htlc contract: every entry has a known hash type and a 32-byte hash lock. Established by Create
+// (checkHtlc), relied on by Unlock.
+//@ spec htlcWellFormed(s db.DB) bool = forall i arr :: s.htlcHas[i] ==> (s.htlcHashType[i] == 0 || s.htlcHashType[i] == 1) && s.htlcLockLen[i] == 32
+//@ spec digestb(ty int, v int, j int) int = ite(ty == 0, crypto.sha3b(v, j), crypto.sha256b(v, j))
+
+// checkHtlc accepts exactly the two known hash types with a hash lock of the digest size.
+//@ func checkHtlc(param) -> (err)
+//@   ensures[accepts-only-wellformed] err == nil <==> (param.HashType == 0 || param.HashType == 1) && len(param.HashLock) == 32
+//@   modifies nothing
+
+// Create: records an entry under the hash of the send block holding exactly the received amount and token, time-locked to
+// the sender; pays nothing; refuses an expiration that is not in the future.
+//@ func CreateHtlcMethod.ReceiveBlock(p, context, sendBlock) -> (descendants, err)
+//@   requires p != nil && sendBlock != nil && sendBlock.Amount != nil
+//@   ensures[no-payment] len(descendants) == 0
+//@   ensures[entry-holds-received-amount] err == nil ==> stg(context).htlcAmt == store(old(stg(context).htlcAmt), sendBlock.Hash, val(sendBlock.Amount)) && stg(context).htlcToken == store(old(stg(context).htlcToken), sendBlock.Hash, sendBlock.TokenStandard)
+//@   ensures[time-locked-to-sender] err == nil ==> stg(context).htlcTimeLocked == store(old(stg(context).htlcTimeLocked), sendBlock.Hash, sendBlock.Address)
+//@   ensures[expires-in-the-future] err == nil ==> stg(context).htlcExp[sendBlock.Hash] > context.now
+//@   ensures-local[hash-locked-as-requested] err == nil ==> stg(context).htlcHashLocked == store(old(stg(context).htlcHashLocked), sendBlock.Hash, param.HashLocked)
+//@   ensures[nothing-on-error] err != nil ==> stg(context).htlcAmt == old(stg(context).htlcAmt) && stg(context).htlcHas == old(stg(context).htlcHas)
+//@   modifies sendBlock.Data, MF:common/db.DB.htlc
+
+// Reclaim: only the time-locked party (the depositor), only once the frontier time has reached the expiration; pays exactly
+// the recorded amount and token to the depositor and removes the entry.
+//@ func ReclaimHtlcMethod.ReceiveBlock(p, context, sendBlock) -> (descendants, err)
+//@   requires p != nil && sendBlock != nil && sendBlock.Amount != nil
+//@   ensures[one-payment] err == nil ==> len(descendants) == 1 && descendants[0] != nil && descendants[0].Amount != nil && descendants[0].Address == types.HtlcContract && descendants[0].BlockType == nom.BlockTypeContractSend
+//@   ensures[nothing-on-error] err != nil ==> len(descendants) == 0 && stg(context).htlcAmt == old(stg(context).htlcAmt) && stg(context).htlcHas == old(stg(context).htlcHas)
+//@   ensures-local[entry-exists] err == nil ==> old(stg(context).htlcHas)[deref(id)]
+//@   ensures-local[only-depositor] err == nil ==> sendBlock.Address == old(stg(context).htlcTimeLocked)[deref(id)] && descendants[0].ToAddress == sendBlock.Address
+//@   ensures-local[exact-amount-and-token] err == nil ==> val(descendants[0].Amount) == old(stg(context).htlcAmt)[deref(id)] && descendants[0].TokenStandard == old(stg(context).htlcToken)[deref(id)]
+//@   ensures-local[not-before-expiry] err == nil ==> old(stg(context).htlcExp)[deref(id)] <= context.now
+//@   ensures-local[never-twice] err == nil ==> stg(context).htlcHas == store(old(stg(context).htlcHas), deref(id), false) && stg(context).htlcAmt == store(old(stg(context).htlcAmt), deref(id), 0)
+//@   modifies sendBlock.Data, MF:common/db.DB.htlcHas, MF:common/db.DB.htlcAmt
+
+// Unlock: strictly before expiry, with a preimage no longer than the entry allows whose digest (of the entry's hash type)
+// equals the entry's hash lock; by the hash-locked party, or by anyone if that party allows proxy unlocks; always paid to the
+// hash-locked party; removes the entry.
+//@ func UnlockHtlcMethod.ReceiveBlock(p, context, sendBlock) -> (descendants, err)
+//@   requires p != nil && sendBlock != nil && sendBlock.Amount != nil
+//@   requires[entries-wellformed] htlcWellFormed(stg(context))
+//@   ensures[one-payment] err == nil ==> len(descendants) == 1 && descendants[0] != nil && descendants[0].Amount != nil && descendants[0].Address == types.HtlcContract && descendants[0].BlockType == nom.BlockTypeContractSend
+//@   ensures[nothing-on-error] err != nil ==> len(descendants) == 0 && stg(context).htlcAmt == old(stg(context).htlcAmt) && stg(context).htlcHas == old(stg(context).htlcHas)
+//@   ensures-local[entry-exists] err == nil ==> old(stg(context).htlcHas)[param.Id]
+//@   ensures-local[paid-to-hash-locked] err == nil ==> descendants[0].ToAddress == old(stg(context).htlcHashLocked)[param.Id]
+//@   ensures-local[by-hash-locked-or-allowed-proxy] err == nil ==> sendBlock.Address == old(stg(context).htlcHashLocked)[param.Id] || !old(stg(context).proxyHas)[old(stg(context).htlcHashLocked)[param.Id]] || old(stg(context).proxyAllowed)[old(stg(context).htlcHashLocked)[param.Id]]
+//@   ensures-local[exact-amount-and-token] err == nil ==> val(descendants[0].Amount) == old(stg(context).htlcAmt)[param.Id] && descendants[0].TokenStandard == old(stg(context).htlcToken)[param.Id]
+//@   ensures-local[before-expiry] err == nil ==> context.now < old(stg(context).htlcExp)[param.Id]
+//@   ensures-local[preimage-size] err == nil ==> len(param.Preimage) <= old(stg(context).htlcKeyMax)[param.Id]
+//@   ensures-local[correct-preimage] err == nil ==> (forall j int :: 0 <= j && j < 32 ==> old(stg(context).htlcLockByte)[param.Id][j] == digestb(old(stg(context).htlcHashType)[param.Id], bytesval(param.Preimage), j))
+//@   ensures-local[never-twice] err == nil ==> stg(context).htlcHas == store(old(stg(context).htlcHas), param.Id, false) && stg(context).htlcAmt == store(old(stg(context).htlcAmt), param.Id, 0)
+//@   modifies sendBlock.Data, MF:common/db.DB.htlcHas, MF:common/db.DB.htlcAmt
+
+// Proxy-unlock switch: an account can only set its own flag.
+//@ func GetHtlcProxyUnlockStatus(context, address) -> (allowed, err)
+//@   ensures[default-allow] err == nil ==> allowed == (!stg(context).proxyHas[address] || stg(context).proxyAllowed[address])
+//@   modifies nothing
+//@ func DenyHtlcProxyUnlockMethod.ReceiveBlock(p, context, sendBlock) -> (descendants, err)
+//@   requires p != nil && sendBlock != nil && sendBlock.Amount != nil
+//@   ensures[no-payment] len(descendants) == 0
+//@   ensures[own-flag-only] err == nil ==> stg(context).proxyHas == store(old(stg(context).proxyHas), sendBlock.Address, true) && stg(context).proxyAllowed == store(old(stg(context).proxyAllowed), sendBlock.Address, false)
+//@   ensures[nothing-on-error] err != nil ==> stg(context).proxyHas == old(stg(context).proxyHas) && stg(context).proxyAllowed == old(stg(context).proxyAllowed)
+//@   modifies sendBlock.Data, MF:common/db.DB.proxyHas, MF:common/db.DB.proxyAllowed
+//@ func AllowHtlcProxyUnlockMethod.ReceiveBlock(p, context, sendBlock) -> (descendants, err)
+//@   requires p != nil && sendBlock != nil && sendBlock.Amount != nil
+//@   ensures[no-payment] len(descendants) == 0
+//@   ensures[own-flag-only] err == nil ==> stg(context).proxyHas == store(old(stg(context).proxyHas), sendBlock.Address, true) && stg(context).proxyAllowed == store(old(stg(context).proxyAllowed), sendBlock.Address, true)
+//@   ensures[nothing-on-error] err != nil ==> stg(context).proxyHas == old(stg(context).proxyHas) && stg(context).proxyAllowed == old(stg(context).proxyAllowed)
+//@   modifies sendBlock.Data, MF:common/db.DB.proxyHas, MF:common/db.DB.proxyAllowed
